@@ -61,7 +61,7 @@ class Ctx:
         )
 
     # ---- library call discipline ----
-    def lib(self, what, fn, *a, tags=None, **k):
+    def lib(self, what, fn, *a, tags=None, exc_tagger=None, **k):
         """Call a library function on a VALID input: any exception is a
         violation of the property whose call it was."""
         try:
@@ -72,6 +72,8 @@ class Ctx:
             tb = traceback.format_exc()
             t = {"exc": type(e).__name__, "call": what}
             t.update(tags or {})
+            if exc_tagger is not None:
+                t.update(exc_tagger(e, tb) or {})
             self.violation(
                 "exception", f"{what} raised {type(e).__name__}: {e}", tags=t,
                 witness={"traceback": tb[-3000:]},
